@@ -284,3 +284,119 @@ Proof.
   unfold apply_filter. destruct (str_eqb tag _); [intros H; inversion H; reflexivity|].
   cbn [snd]. destruct (assoc tag (filters s)) as [[pairs|cmd]|]; intros H; inversion H; cbn [fst snd]; [reflexivity| apply shell_filter_budget].
 Qed.
+
+(* relational form: a run keeps the counter within the budget *)
+Definition bud (c c' : ctl) : Prop := budget_ok c -> budget_ok c'.
+Lemma bud_refl c : bud c c. Proof. intro H; exact H. Qed.
+Lemma bud_trans a b c : bud a b -> bud b c -> bud a c. Proof. unfold bud; auto. Qed.
+Lemma bud_same c c' : xcount c' = xcount c -> bud c c'. Proof. unfold bud, budget_ok. intros ->. auto. Qed.
+Definition bud_pb (pb : list block -> cst -> cst) : Prop := forall bs c s, bud c (fst (pb bs (c, s))).
+
+Lemma macro_run_bud c s : bud c (fst (macro_run (c, s))).
+Proof.
+  unfold macro_run. destruct (process s); cbn [negb]; [|apply bud_refl].
+  destruct (unrestricted c) eqn:E; cbn [negb]; [|apply bud_refl].
+  destruct (parse_opts specOptRun (args s) s) as [o s1].
+  match goal with |- context [fold_left ?f (po_args o) ([], s1)] => destruct (fold_left f (po_args o) ([], s1)) as [sargs s2] end.
+  destruct sargs; [apply bud_refl|].
+  destruct (run_cmd _ _); apply bud_same; reflexivity.
+Qed.
+Lemma macro_ef_bud c s : bud c (fst (macro_ef (c, s))).
+Proof.
+  unfold macro_ef. destruct (process s); cbn [negb]; [|apply bud_refl].
+  destruct (parse_opts specOptEf (args s) s) as [o s1].
+  destruct (bf (useless o s1)) as [b|]; [|apply bud_refl].
+  destruct (bf_ignore b); [apply bud_refl|].
+  destruct (bf_tag b) as [|t0 tr] eqn:Et.
+  - cbn. repeat dif; apply bud_refl.
+  - destruct (apply_filter (t0 :: tr) (raw (useless o s1)) (c, useless o s1)) as [[t [c' s']]|] eqn:Ea.
+    + apply apply_filter_budget in Ea. cbn [fst snd] in *. repeat dif; apply bud_same; exact Ea.
+    + cbn. repeat dif; apply bud_refl.
+Qed.
+Lemma macro_ft_bud c s : bud c (fst (macro_ft (c, s))).
+Proof.
+  unfold macro_ft. destruct (process s); cbn [negb]; [|apply bud_refl].
+  destruct (parse_opts specOptFt (args s) s) as [o s1].
+  destruct (match opt "f" o with Some f => _ | None => (false, s1) end) as [skip s2].
+  destruct skip; [apply bud_refl|].
+  destruct (opt "f" o) as [f|], (opt "t" o) as [tg|]; try apply bud_refl.
+  all: try (destruct (args_text (po_args o) _) as [x s']; apply bud_refl).
+  all: destruct (inlines_text tg _) as [tag s'];
+       (destruct (has_filter tag s');
+        [ destruct (args_text (po_args o) s') as [x s''];
+          destruct (apply_filter tag x (c, s'')) as [[t [c' s3]]|] eqn:Ea; [apply apply_filter_budget in Ea; apply bud_same; exact Ea | apply bud_refl]
+        | destruct (render_args (po_args o) _) as [y s'']; apply bud_refl ]).
+Qed.
+Lemma macro_include_bud pb c s : bud_pb pb -> bud c (fst (macro_include pb (c, s))).
+Proof.
+  intros Hpb. unfold macro_include.
+  destruct (parse_opts specOptIncludeFile (args s) s) as [o s1].
+  destruct (match opt "f" o with Some f => _ | None => (false, s1) end) as [skip s2].
+  destruct skip; [apply bud_refl|].
+  destruct (po_args o) as [|a0 ar]; [apply bud_refl|].
+  destruct (inlines_text a0 s2) as [name s3].
+  destruct (flag "as-is" o).
+  - destruct (process s3); cbn [negb]; [|apply bud_refl].
+    destruct (fs_get name c); [|apply bud_refl].
+    destruct (opt "t" o) as [tg|]; [|apply bud_refl].
+    destruct (inlines_text tg _) as [tag s'].
+    destruct (apply_filter tag s0 (c, s')) as [[t [c' s5]]|] eqn:Ea; [apply apply_filter_budget in Ea; apply bud_same; exact Ea | apply bud_refl].
+  - destruct (search_inc_file name c) as [path found].
+    destruct found; cbn [negb]; [|apply bud_refl].
+    destruct (existsb _ (incstack c)); [apply bud_refl|].
+    destruct (fs_get path c); [|apply bud_refl].
+    destruct (parse s0) as [bs e]. destruct e; [apply bud_refl|].
+    match goal with |- context [pb bs (?c0, ?s0)] => pose proof (Hpb bs c0 s0) as H; destruct (pb bs (c0, s0)) as [c5 s5] end.
+    cbn [fst] in *. intro Hc. apply H. exact Hc.
+Qed.
+(* the call itself: beyond the budget the body is not run at all; within it one more expansion is counted *)
+Lemma user_macro_refused pb m n l c s : cdepth c <= 42 -> max_macro_expansions <= xcount c ->
+  user_macro pb m n l (c, s) =
+  (set_budget (xcount c) true c, if process s && negb (xexh c) then err "recursive macro: too many expansions" s else s).
+Proof.
+  intros Hd Hx. unfold user_macro.
+  assert (E1 : Nat.ltb 42 (cdepth c) = false) by (apply Nat.ltb_ge; exact Hd). rewrite E1.
+  assert (E2 : Nat.leb max_macro_expansions (xcount c) = true) by (apply Nat.leb_le; exact Hx). rewrite E2. reflexivity.
+Qed.
+Lemma user_macro_bud pb m n l c s : bud_pb pb -> bud c (fst (user_macro pb m n l (c, s))).
+Proof.
+  intros Hpb. unfold user_macro.
+  destruct (Nat.ltb 42 (cdepth c)); [apply bud_refl|].
+  destruct (Nat.leb max_macro_expansions (xcount c)) eqn:Ex; [apply bud_same; reflexivity|].
+  apply Nat.leb_gt in Ex.
+  assert (Hs : budget_ok (set_budget (S (xcount c)) (xexh c) c)) by (unfold budget_ok; change (S (xcount c) <= max_macro_expansions); exact Ex).
+  destruct (Nat.ltb max_macro_args_size _); [intros _; exact Hs|].
+  destruct (parse_opts (um_opts m) _ _) as [o sa].
+  destruct (if Nat.ltb 0 (um_argsc m) || um_list m || _ then _ else _) as [blocks sd].
+  match goal with |- context [pb blocks (?c0, ?s0)] => pose proof (Hpb blocks c0 s0) as H; destruct (pb blocks (c0, s0)) as [cf sf] end.
+  cbn [fst] in H. intros _.
+  assert (Hf : budget_ok cf) by (apply H; exact Hs).
+  dif; cbn [fst]; unfold budget_ok in *; [change (0 <= max_macro_expansions); apply Nat.le_0_l | exact Hf].
+Qed.
+Lemma step_bud pb b c s : bud_pb pb -> bud c (fst (step pb b (c, s))).
+Proof.
+  intros Hpb. unfold step.
+  destruct (Nat.ltb 0 (ifdepth (set_regs b s))); [apply bud_refl|].
+  destruct (udef (set_regs b s)); [apply bud_refl|].
+  destruct b as [n a l|t l]; [|apply bud_refl].
+  destruct (if inl _ then None else assoc n _) as [m|]; [apply user_macro_bud; exact Hpb|].
+  unfold control_builtin.
+  destruct (is_name n "Ef").
+  { pose proof (macro_ef_bud c (bf_check n (set_regs (BMacro n a l) s))) as H. destruct (macro_ef _) as [c1 s1]. exact H. }
+  destruct (is_name n "Ft").
+  { pose proof (macro_ft_bud c (bf_check n (set_regs (BMacro n a l) s))) as H. destruct (macro_ft _) as [c1 s1]. exact H. }
+  destruct (is_name n "If").
+  { pose proof (macro_include_bud pb c (bf_check n (set_regs (BMacro n a l) s)) Hpb) as H. destruct (macro_include _ _) as [c1 s1]. exact H. }
+  destruct (is_name n "#run").
+  { pose proof (macro_run_bud c (bf_check n (set_regs (BMacro n a l) s))) as H. destruct (macro_run _) as [c1 s1]. exact H. }
+  destruct (builtin n); apply bud_refl.
+Qed.
+Lemma walk_bud pb : bud_pb pb -> bud_pb (walk pb).
+Proof.
+  intros Hpb bs. induction bs as [|b rest IH]; intros c s; [apply bud_refl|].
+  cbn [walk]. pose proof (step_bud pb b c s Hpb) as H. destruct (step pb b (c, s)) as [c1 s1]. cbn [fst snd] in *.
+  destruct (panicked s1); [exact H|]. eapply bud_trans; [exact H| apply IH].
+Qed.
+Theorem run_blocks_budget : forall d, bud_pb (run_blocks d).
+Proof. induction d as [|d IH]; [intros bs c s; apply bud_refl | cbn [run_blocks]; apply walk_bud; exact IH]. Qed.
+Print Assumptions run_blocks_budget.
